@@ -347,6 +347,10 @@ def run(cx):
     r = cx.rule("C02-FLOW", "every C++ type the parser declares - globals, locals, declarations hoisted out of if/elif/else, while, for and try blocks, parameters and return types of each call-site specialisation - holds the values CPython gives the name when it executes the same script (script corpus partially evaluated; CPython under settrace is the typing oracle)", floor=80, exhaustive=True)
     rule_flow_scripts(r, pm)
 
+    # ---- C02-E2E: values that only survive in the right C++ type ---------------------------------
+    from .. import e2e
+    e2e.rule_traces(cx, "C02-E2E", "c02", (pm, pm.func("parse")), "scripts whose printed values only survive when every temporary, local, hoisted declaration, parameter and return value has the type Python's values need (tuple assignment carrying a float through a temporary, int/float call-site variants in both orders, hoisted names shared between variants and scopes, float accumulators): the emitted sketch is evaluated with C typed stores (an int variable truncates) and must print CPython's values")
+
     # ---- C02-REDECL --------------------------------------------------------------------------
     r = cx.rule("C02-REDECL", "a scalar that receives values of several labels - re-assigned later, or first assigned in different branches of one if/elif/else - is declared with a type that holds them all, or the script is rejected (scripts for every ordered combination of labels partially evaluated; CPython is the typing oracle)", floor=20, exhaustive=True)
     from .. import pe as _pe, pytypes
